@@ -35,6 +35,7 @@ def run(chk):
         ("names:concat-collision", "type Data struct {\n\tSize int64 `parquet:\"size\"`\n}\n\ntype Meta struct {\n\tData Data `parquet:\"data\"`\n\tKind *string `parquet:\"kind\"`\n}\n\ntype Metadata struct {\n\tSize int32 `parquet:\"size\"`\n\tRatio *float64 `parquet:\"ratio\"`\n}\n\ntype T struct {\n\tMeta Meta `parquet:\"meta\"`\n\tMetadata *Metadata `parquet:\"metadata\"`\n}\n"),
         ("names:concat-collision-2", "type Bc struct {\n\tX int32 `parquet:\"x\"`\n}\n\ntype A struct {\n\tBc *Bc `parquet:\"bc\"`\n}\n\ntype C struct {\n\tY string `parquet:\"y\"`\n}\n\ntype Ab struct {\n\tC C `parquet:\"c\"`\n}\n\ntype T struct {\n\tA A `parquet:\"a\"`\n\tAb *Ab `parquet:\"ab\"`\n}\n"),
     ]
+    COLLIDE.append(("names:type-name-prefix", "type Session_stats struct {\n\tHits int64 `parquet:\"hits\"`\n}\n\ntype Session struct {\n\tStart int64 `parquet:\"start\"`\n\tAgent *string `parquet:\"agent\"`\n}\n\ntype Ev struct {\n\tKind string `parquet:\"kind\"`\n}\n\ntype T struct {\n\tSession_stats Session_stats `parquet:\"session_stats\"`\n\tSession *Session `parquet:\"session\"`\n\tEvents Ev `parquet:\"events\"`\n\tEv *Ev `parquet:\"ev\"`\n}\n"))
     for k, (nm, body) in enumerate(COLLIDE):
         sid = "t8%03d" % k
         items.append((sid, "package %s\n\n%s" % (sid, body), "T"))
